@@ -110,6 +110,7 @@ def _ops_case(world):
         stats[k] = stats.get(k, 0) + n
 
     refused = removed = False
+    prev_obj = [None]
     only = c.get("only")
     for i, (op, a, b) in enumerate(c["history"]):
         sub = None
@@ -128,7 +129,10 @@ def _ops_case(world):
                 break
             before = len(ref.entries)
             exp = ref.insert(*pair)
-            res = flt.update(it, it)
+            # like the solver: the step starts from the last *accepted* iterate object, again and again until a step is accepted
+            res = flt.update(prev_obj[0] if prev_obj[0] is not None else it, it)
+            if res.accept:
+                prev_obj[0] = it
             got = bool(res.accept)
             bump("ops.update")
             if not exp:
